@@ -8,6 +8,7 @@ import (
 	"sync"
 
 	"github.com/alibaba/RedisShake/pkg/libs/log"
+	conf "github.com/alibaba/RedisShake/redis-shake/configure"
 )
 
 // LogCapture collects everything the tool logs during a run.
@@ -127,4 +128,32 @@ func ErrClass(line string) string {
 		out = out[:60]
 	}
 	return out
+}
+
+// DefaultOptions resets the tool's global configuration to what SanitizeOptions
+// leaves for an all-default configuration file of the given mode.
+func DefaultOptions(mode string) {
+	conf.Options = conf.Configuration{
+		Id:                     "redis-shake-default",
+		LogLevel:               "info",
+		Parallel:               64,
+		SourceType:             "standalone",
+		SourceAuthType:         "auth",
+		TargetAuthType:         "auth",
+		TargetType:             "standalone",
+		KeyExists:              "none",
+		BigKeyThreshold:        50 * 1024 * 1024,
+		Metric:                 true,
+		SenderSize:             65535,
+		SenderCount:            1024,
+		SenderDelayChannelSize: 32,
+		ScanKeyNumber:          100,
+		Qps:                    500000,
+		TargetDB:               -1,
+		Type:                   mode,
+		HeartbeatIp:            "127.0.0.1",
+		Psync:                  true,
+		SourceRdbParallel:      1,
+		NCpu:                   1,
+	}
 }
